@@ -626,3 +626,18 @@ B('f_c12_chain_builder_loop_reads_shared_name', ['C12'], 'R12.a',
   (S, _BCS_OLD_HEAD, _CARRIED_HEAD + "        tails.append('%slast_context = _shared\\n' % (_INDENT * (cur + 1),))\n" + _CARRIED_OK + _CARRIED_TAIL))
 B('f_c12_chain_builder_initial_list_item', ['C12'], 'R12.a',
   (S, _BCS_OLD_HEAD, _CARRIED_HEAD.replace("defs, tails = [], []", "defs, tails = [], ['global chain_depth\\n']") + _CARRIED_OK + _CARRIED_TAIL))
+
+# ---- C12 / R12.e: other spellings of a write to a long-lived receiver ----------------------------------------------------------
+_SR = '        return next(**{self.provided_name: request.script_root})\n'
+B('f_c12_ring_setattr_on_self', ['C12'], 'R12.e',
+  (URL, _SR, "        setattr(self, 'last_root', request.script_root)\n" + _SR))
+B('f_c12_ring_vars_of_self', ['C12'], 'R12.e',
+  (URL, _SR, "        vars(self)['hits'] = vars(self).get('hits', 0) + 1\n" + _SR))
+B('f_c12_ring_instance_dict_update', ['C12'], 'R12.e',
+  (URL, _SR, "        self.__dict__.update(last_root=request.script_root)\n" + _SR))
+B('f_c12_ring_module_attribute_rebound', ['C12'], 'R12.e',
+  (URL, 'from .core import Middleware\n', 'from .core import Middleware\nfrom . import core as _core\n'),
+  (URL, _SR, "        _core.LAST_SCRIPT_ROOT = request.script_root\n" + _SR))
+T('f_c12_ring_setattr_on_response', ['C12'],
+  (URL, _SR, "        resp = next(**{self.provided_name: request.script_root})\n        setattr(resp, 'script_root', request.script_root)\n"
+             "        vars(resp)['seen_by'] = self.provided_name\n        return resp\n"))
